@@ -770,6 +770,13 @@ module Z =
        | Zneg y' -> compOpp (Coq_Pos.compare x' y')
        | _ -> Lt)
 
+  (** val leb : z -> z -> bool **)
+
+  let leb x y =
+    match compare x y with
+    | Gt -> false
+    | _ -> true
+
   (** val eqb : z -> z -> bool **)
 
   let eqb x y =
@@ -790,6 +797,12 @@ module Z =
     match compare n0 m with
     | Lt -> m
     | _ -> n0
+
+  (** val of_N : n -> z **)
+
+  let of_N = function
+  | N0 -> Z0
+  | Npos p -> Zpos p
 
   (** val eq_dec : z -> z -> bool **)
 
@@ -855,6 +868,18 @@ let dec_Z = function
 let is_digit c =
   (&&) (N.leb (Npos (XO (XO (XO (XO (XI XH)))))) c)
     (N.leb c (Npos (XI (XO (XO (XI (XI XH)))))))
+
+(** val text_eqb : text -> text -> bool **)
+
+let rec text_eqb a b =
+  match a with
+  | [] -> (match b with
+           | [] -> true
+           | _ :: _ -> false)
+  | x :: a' ->
+    (match b with
+     | [] -> false
+     | y :: b' -> (&&) (N.eqb x y) (text_eqb a' b'))
 
 (** val join : text -> text list -> text **)
 
@@ -3419,3 +3444,296 @@ let rec resolve_loop o veqb0 fuel st next added tr n0 log =
 
 let resolve o veqb0 fuel r v tr =
   resolve_loop o veqb0 fuel (state_init o r v) r [] tr O []
+
+type json =
+| JNull
+| JBool of bool
+| JNum of z
+| JStr of text
+| JArr of json list
+| JObj of (text * json) list
+
+(** val s_unbounded : text **)
+
+let s_unbounded =
+  txt (String ((Ascii (true, false, true, false, true, false, true, false)),
+    (String ((Ascii (false, true, true, true, false, true, true, false)),
+    (String ((Ascii (false, true, false, false, false, true, true, false)),
+    (String ((Ascii (true, true, true, true, false, true, true, false)),
+    (String ((Ascii (true, false, true, false, true, true, true, false)),
+    (String ((Ascii (false, true, true, true, false, true, true, false)),
+    (String ((Ascii (false, false, true, false, false, true, true, false)),
+    (String ((Ascii (true, false, true, false, false, true, true, false)),
+    (String ((Ascii (false, false, true, false, false, true, true, false)),
+    EmptyString))))))))))))))))))
+
+(** val s_included : text **)
+
+let s_included =
+  txt (String ((Ascii (true, false, false, true, false, false, true, false)),
+    (String ((Ascii (false, true, true, true, false, true, true, false)),
+    (String ((Ascii (true, true, false, false, false, true, true, false)),
+    (String ((Ascii (false, false, true, true, false, true, true, false)),
+    (String ((Ascii (true, false, true, false, true, true, true, false)),
+    (String ((Ascii (false, false, true, false, false, true, true, false)),
+    (String ((Ascii (true, false, true, false, false, true, true, false)),
+    (String ((Ascii (false, false, true, false, false, true, true, false)),
+    EmptyString))))))))))))))))
+
+(** val s_excluded : text **)
+
+let s_excluded =
+  txt (String ((Ascii (true, false, true, false, false, false, true, false)),
+    (String ((Ascii (false, false, false, true, true, true, true, false)),
+    (String ((Ascii (true, true, false, false, false, true, true, false)),
+    (String ((Ascii (false, false, true, true, false, true, true, false)),
+    (String ((Ascii (true, false, true, false, true, true, true, false)),
+    (String ((Ascii (false, false, true, false, false, true, true, false)),
+    (String ((Ascii (true, false, true, false, false, true, true, false)),
+    (String ((Ascii (false, false, true, false, false, true, true, false)),
+    EmptyString))))))))))))))))
+
+(** val map_opt : ('a1 -> 'a2 option) -> 'a1 list -> 'a2 list option **)
+
+let rec map_opt f = function
+| [] -> Some []
+| x :: r ->
+  (match f x with
+   | Some y ->
+     (match map_opt f r with
+      | Some ys -> Some (y :: ys)
+      | None -> None)
+   | None -> None)
+
+(** val encode_bound : ('a1 -> json) -> 'a1 bound -> json **)
+
+let encode_bound enc_v = function
+| Incl v -> JObj ((s_included, (enc_v v)) :: [])
+| Excl v -> JObj ((s_excluded, (enc_v v)) :: [])
+| Unb -> JStr s_unbounded
+
+(** val decode_bound : (json -> 'a1 option) -> json -> 'a1 bound option **)
+
+let decode_bound dec_v = function
+| JStr s -> if text_eqb s s_unbounded then Some Unb else None
+| JObj l ->
+  (match l with
+   | [] -> None
+   | p :: l0 ->
+     let (k, x) = p in
+     (match l0 with
+      | [] ->
+        if text_eqb k s_included
+        then option_map (fun x0 -> Incl x0) (dec_v x)
+        else if text_eqb k s_excluded
+             then option_map (fun x0 -> Excl x0) (dec_v x)
+             else if text_eqb k s_unbounded
+                  then (match x with
+                        | JNull -> Some Unb
+                        | _ -> None)
+                  else None
+      | _ :: _ -> None))
+| _ -> None
+
+(** val decode_opt : (json -> 'a1 option) -> json -> 'a1 option option **)
+
+let decode_opt dec_v j = match j with
+| JNull -> Some None
+| _ -> option_map (fun x -> Some x) (dec_v j)
+
+(** val decode_legacy :
+    (json -> 'a1 option) -> json -> json -> ('a1 bound * 'a1 bound) option **)
+
+let decode_legacy dec_v a b =
+  match dec_v a with
+  | Some va ->
+    (match decode_opt dec_v b with
+     | Some o ->
+       (match o with
+        | Some vb -> Some ((Incl va), (Excl vb))
+        | None -> Some ((Incl va), Unb))
+     | None -> None)
+  | None -> None
+
+(** val decode_interval :
+    (json -> 'a1 option) -> json -> ('a1 bound * 'a1 bound) option **)
+
+let decode_interval dec_v = function
+| JArr l ->
+  (match l with
+   | [] -> None
+   | a :: l0 ->
+     (match l0 with
+      | [] -> None
+      | b :: l1 ->
+        (match l1 with
+         | [] ->
+           (match decode_bound dec_v a with
+            | Some x ->
+              (match decode_bound dec_v b with
+               | Some y -> Some (x, y)
+               | None -> decode_legacy dec_v a b)
+            | None -> decode_legacy dec_v a b)
+         | _ :: _ -> None)))
+| _ -> None
+
+(** val encode_interval : ('a1 -> json) -> ('a1 bound * 'a1 bound) -> json **)
+
+let encode_interval enc_v se =
+  JArr
+    ((encode_bound enc_v (fst se)) :: ((encode_bound enc_v (snd se)) :: []))
+
+(** val encode_range :
+    ('a1 -> json) -> ('a1 bound * 'a1 bound) list -> json **)
+
+let encode_range enc_v r =
+  JArr (map (encode_interval enc_v) r)
+
+(** val decode_range :
+    (json -> 'a1 option) -> json -> ('a1 bound * 'a1 bound) list option **)
+
+let decode_range dec_v = function
+| JArr l -> map_opt (decode_interval dec_v) l
+| _ -> None
+
+(** val enc_num : z -> json **)
+
+let enc_num z0 =
+  JNum z0
+
+(** val z_in_u32 : z -> bool **)
+
+let z_in_u32 z0 =
+  (&&) (Z.leb Z0 z0)
+    (Z.leb z0 (Zpos (XI (XI (XI (XI (XI (XI (XI (XI (XI (XI (XI (XI (XI (XI
+      (XI (XI (XI (XI (XI (XI (XI (XI (XI (XI (XI (XI (XI (XI (XI (XI (XI
+      XH)))))))))))))))))))))))))))))))))
+
+(** val dec_u32 : json -> z option **)
+
+let dec_u32 = function
+| JNum z0 -> if z_in_u32 z0 then Some z0 else None
+| _ -> None
+
+(** val enc_sv : semver -> json **)
+
+let enc_sv v =
+  JStr (sv_display v)
+
+(** val dec_sv : json -> semver option **)
+
+let dec_sv = function
+| JStr s -> (match sv_parse s with
+             | ParseOk v -> Some v
+             | _ -> None)
+| _ -> None
+
+(** val key_of_N : n -> text **)
+
+let key_of_N =
+  dec_N
+
+(** val n_of_key : text -> n option **)
+
+let n_of_key s =
+  match parse_u32 s with
+  | Inl n0 -> if text_eqb (dec_N n0) s then Some n0 else None
+  | Inr _ -> None
+
+(** val key_of_Z : z -> text **)
+
+let key_of_Z =
+  dec_Z
+
+(** val z_of_key : text -> z option **)
+
+let z_of_key s =
+  option_map Z.of_N (n_of_key s)
+
+(** val encode_entries :
+    ('a1 -> text) -> ('a2 -> json) -> ('a1 * 'a2) list -> json **)
+
+let encode_entries ek ex m =
+  JObj (map (fun kx -> ((ek (fst kx)), (ex (snd kx)))) m)
+
+(** val decode_entry :
+    (text -> 'a1 option) -> (json -> 'a2 option) -> (text * json) ->
+    ('a1 * 'a2) option **)
+
+let decode_entry dk dx kv =
+  match dk (fst kv) with
+  | Some k -> (match dx (snd kv) with
+               | Some x -> Some (k, x)
+               | None -> None)
+  | None -> None
+
+(** val decode_entries :
+    (text -> 'a1 option) -> (json -> 'a2 option) -> json -> ('a1 * 'a2) list
+    option **)
+
+let decode_entries dk dx = function
+| JObj l -> map_opt (decode_entry dk dx) l
+| _ -> None
+
+(** val encode_depmap : ('a1 -> json) -> 'a1 depmap -> json **)
+
+let encode_depmap enc_vs m =
+  encode_entries key_of_N enc_vs m
+
+(** val decode_depmap : (json -> 'a1 option) -> json -> 'a1 depmap option **)
+
+let decode_depmap dec_vs j =
+  decode_entries n_of_key dec_vs j
+
+(** val encode_inner : ('a1 -> json) -> (z * 'a1 depmap) list -> json **)
+
+let encode_inner enc_vs l =
+  encode_entries key_of_Z (encode_depmap enc_vs) l
+
+(** val decode_inner :
+    (json -> 'a1 option) -> json -> (z * 'a1 depmap) list option **)
+
+let decode_inner dec_vs j =
+  decode_entries z_of_key (decode_depmap dec_vs) j
+
+(** val encode_provider : ('a1 -> json) -> 'a1 provider -> json **)
+
+let encode_provider enc_vs p =
+  encode_entries key_of_N (encode_inner enc_vs) p
+
+(** val decode_provider :
+    (json -> 'a1 option) -> json -> 'a1 provider option **)
+
+let decode_provider dec_vs j =
+  decode_entries n_of_key (decode_inner dec_vs) j
+
+(** val encode_range_u32 : RZ.range -> json **)
+
+let encode_range_u32 r =
+  encode_range enc_num r
+
+(** val decode_range_u32 : json -> RZ.range option **)
+
+let decode_range_u32 j =
+  decode_range dec_u32 j
+
+(** val encode_range_sv : (semver bound * semver bound) list -> json **)
+
+let encode_range_sv r =
+  encode_range enc_sv r
+
+(** val decode_range_sv :
+    json -> (semver bound * semver bound) list option **)
+
+let decode_range_sv j =
+  decode_range dec_sv j
+
+(** val encode_provider_u32 : RZ.range provider -> json **)
+
+let encode_provider_u32 p =
+  encode_provider encode_range_u32 p
+
+(** val decode_provider_u32 : json -> RZ.range provider option **)
+
+let decode_provider_u32 j =
+  decode_provider decode_range_u32 j
